@@ -28,6 +28,70 @@ def abs_items(items, off, kind):
     return out
 
 
+def check_rdall(meta, r, spec, offs, sid, st, ra, j, kind, first=True):
+    """judge one answer of `rdall sid` (length + all samples) of the reopened image, and (for the first one) the statistics"""
+    probs = []
+    t = ra.split()
+    if t[1] != "0":
+        # a stop in the middle of a write may leave a torn in-place header: reads that fail with an error
+        # code expose nothing wrong; at a clean point (j = 0) the signal must be readable
+        if first and sid in offs and j == 0 and kind != "ctl":
+            tl = meta.get("tail") or (None, None)
+            in_pair = (tl[1] in ("FSR_INDEX", "FSR_SUMM")) or (tl[0] == "FSR_INDEX" and tl[1] is None)
+            probs.append(("signal %d: length/read failed on the reopened file: %s" % (sid, ra),
+                          "crash-repair-omitted-blocks-unreadable" if st.get("may_omit") else
+                          ("repair-stop-inside-fsr-index-summary-pair" if in_pair else None)))
+        return probs
+    ln = int(t[2])
+    if ln > st["total"]:
+        probs.append(("signal %d: length %d exceeds the %d samples submitted" % (sid, ln, st["total"]), None))
+        return probs
+    if ln > 0 and not st.get("omit_req"):
+        # (blocks omitted on request read back synthesised, see C15: no sample comparison for such signals)
+        exp = spec.get("rd %d 0 %d" % (sid, ln), "")
+        et = exp.split()
+        if len(et) < 4 or et[3] != t[3]:
+            probs.append(("signal %d: the %d samples read back%s differ from the submitted prefix" % (sid, ln, "" if first else " by a repeated call (the first call returned an error code)"),
+                          "crash-repair-omitted-blocks-unreadable" if st.get("may_omit") else None))
+    if not first:
+        return probs
+    # clean point: loses at most the buffered samples plus one block in flight
+    if j == 0 and meta["defs_done"] and kind != "ctl":
+        sub = meta["submitted"].get(sid, 0)
+        need = (sub // st["spd"]) * st["spd"] - st["spd"]
+        if ln < need and not meta["has_omit"]:
+            probs.append(("signal %d: %d samples submitted before the stop, only %d readable (allowed loss: buffered + one block = down to %d)" % (sid, sub, ln, need), "clean-point-loss"))
+    # statistics of the reopened file: aligned requests over the whole readable prefix, every entry compared with the exact
+    # statistics of the submitted samples (min/max exact, mean within stored precision)
+    if not st.get("omit_req") and proglib.DT_BITS[st["dt"]] not in (24, 64) and st.get("sdf"):
+        import struct as _st
+        for op, res in r["dump1"]:
+            if not op.startswith("stall %d " % sid):
+                continue
+            t = res.split()
+            if len(t) < 4 or t[1] != "0" or int(t[3]) < 1:
+                continue
+            incr, count = int(op.split()[2]), int(t[3])
+            STATS_COMPARED[0] += 1
+            exp = spec.get("st %d 0 %d %d" % (sid, incr, count), "")
+            et = exp.split()
+            if len(et) < 2 + count or et[1] != "0":
+                continue
+            vals = [_st.unpack("<d", _st.pack("<Q", int(h, 16)))[0] for h in t[4:4 + 4 * count]]
+            for k in range(count):
+                n_, sm, sq, mn, mx = et[2 + k].split(":")
+                zi = lambda h: -int(h[1:], 16) if h.startswith("-") else int(h, 16)
+                n_, sm, mn, mx = int(n_), zi(sm), zi(mn), zi(mx)
+                mean, std, vmin, vmax = vals[4 * k:4 * k + 4]
+                tol = (2.0 ** -20) * max(1.0, abs(mn), abs(mx))
+                if vmin != float(mn) or vmax != float(mx) or abs(mean - sm / n_) > tol + abs(sm / n_) * 2.0 ** -20:
+                    probs.append(("signal %d: statistics entry %d of (incr %d) after reopen: mean/min/max %r/%r/%r, submitted prefix has %r/%d/%d"
+                                  % (sid, k, incr, mean, vmin, vmax, sm / n_, mn, mx),
+                                  "crash-repair-omitted-blocks-unreadable" if st.get("may_omit") else None))
+                    break
+    return probs
+
+
 def check_image(meta, r, model_line, spec_script):
     """returns list of (why, sig) problems for C03"""
     probs = []
@@ -55,65 +119,13 @@ def check_image(meta, r, model_line, spec_script):
     offs = sig_offsets(d1.get("sigs", ""))
     soffs = sig_offsets(spec.get("sigs", ""))
     for sid, st in meta["sigs"].items():
-        ra = d1.get("rdall %d" % sid)
-        if ra is None:
+        ras = [res for op, res in r["dump1"] if op == "rdall %d" % sid]
+        if not ras:
             continue
-        t = ra.split()
-        if t[1] != "0":
-            # a stop in the middle of a write may leave a torn in-place header: reads that fail with an error
-            # code expose nothing wrong; at a clean point (j = 0) the signal must be readable
-            if sid in offs and j == 0 and kind != "ctl":
-                tl = meta.get("tail") or (None, None)
-                in_pair = (tl[1] in ("FSR_INDEX", "FSR_SUMM")) or (tl[0] == "FSR_INDEX" and tl[1] is None)
-                probs.append(("signal %d: length/read failed on the reopened file: %s" % (sid, ra),
-                              "crash-repair-omitted-blocks-unreadable" if st.get("may_omit") else
-                              ("repair-stop-inside-fsr-index-summary-pair" if in_pair else None)))
-            continue
-        ln = int(t[2])
-        if ln > st["total"]:
-            probs.append(("signal %d: length %d exceeds the %d samples submitted" % (sid, ln, st["total"]), None))
-            continue
-        if ln > 0 and not st.get("omit_req"):
-            # (blocks omitted on request read back synthesised, see C15: no sample comparison for such signals)
-            exp = spec.get("rd %d 0 %d" % (sid, ln), "")
-            et = exp.split()
-            if len(et) < 4 or et[3] != t[3]:
-                probs.append(("signal %d: the %d samples read back differ from the submitted prefix" % (sid, ln),
-                              "crash-repair-omitted-blocks-unreadable" if st.get("may_omit") else None))
-        # clean point: loses at most the buffered samples plus one block in flight
-        if j == 0 and meta["defs_done"] and kind != "ctl":
-            sub = meta["submitted"].get(sid, 0)
-            need = (sub // st["spd"]) * st["spd"] - st["spd"]
-            if ln < need and not meta["has_omit"]:
-                probs.append(("signal %d: %d samples submitted before the stop, only %d readable (allowed loss: buffered + one block = down to %d)" % (sid, sub, ln, need), "clean-point-loss"))
-        # statistics of the reopened file: aligned requests over the whole readable prefix, every entry compared with the exact
-        # statistics of the submitted samples (min/max exact, mean within stored precision)
-        if not st.get("omit_req") and proglib.DT_BITS[st["dt"]] not in (24, 64) and st.get("sdf"):
-            for op, res in r["dump1"]:
-                if not op.startswith("stall %d " % sid):
-                    continue
-                t = res.split()
-                if len(t) < 4 or t[1] != "0" or int(t[3]) < 1:
-                    continue
-                incr, count = int(op.split()[2]), int(t[3])
-                STATS_COMPARED[0] += 1
-                exp = spec.get("st %d 0 %d %d" % (sid, incr, count), "")
-                et = exp.split()
-                if len(et) < 2 + count or et[1] != "0":
-                    continue
-                import struct as _st
-                vals = [_st.unpack("<d", _st.pack("<Q", int(h, 16)))[0] for h in t[4:4 + 4 * count]]
-                for k in range(count):
-                    n_, sm, sq, mn, mx = et[2 + k].split(":")
-                    zi = lambda h: -int(h[1:], 16) if h.startswith("-") else int(h, 16)
-                    n_, sm, mn, mx = int(n_), zi(sm), zi(mn), zi(mx)
-                    mean, std, vmin, vmax = vals[4 * k:4 * k + 4]
-                    tol = (2.0 ** -20) * max(1.0, abs(mn), abs(mx))
-                    if vmin != float(mn) or vmax != float(mx) or abs(mean - sm / n_) > tol + abs(sm / n_) * 2.0 ** -20:
-                        probs.append(("signal %d: statistics entry %d of (incr %d) after reopen: mean/min/max %r/%r/%r, submitted prefix has %r/%d/%d"
-                                      % (sid, k, incr, mean, vmin, vmax, sm / n_, mn, mx),
-                                      "crash-repair-omitted-blocks-unreadable" if st.get("may_omit") else None))
-                        break
+        # judged: the first answer; if it is an error code and a repeated call succeeds, the data of that later call as well
+        later_ok = [x for x in ras[1:] if x.split()[1:2] == ["0"]]
+        for ra in ([ras[0]] + (later_ok[:1] if ras[0].split()[1:2] != ["0"] else [])):
+            probs += check_rdall(meta, r, spec, offs, sid, st, ra, j, kind, first=(ra is ras[0]))
         for kind_op, cls in (("an %d -1000000000000" % sid, "anno"), ("ut %d -1000000000000" % sid, "utc")):
             got, rest = proglib.parse_items(d1.get(kind_op, "")[len(kind_op.split()[0]):])
             exp, _ = proglib.parse_items(spec.get(kind_op, "")[len(kind_op.split()[0]):])
